@@ -300,6 +300,43 @@ pub fn guided_cases(case: &Case, out: &SimOut<Obs>, oc: &OracleCell) -> Vec<Case
     cases
 }
 
+/// Positional variant of a scenario: the same robot, start and goal with the bodies LISTED
+/// differently — the environment in reverse order (per-pair entries renumbered with it), the tool
+/// and / or the base body taken away — and a pool size that does not divide typical pair counts.
+/// Which pair comes last in the planner's collision work, and how the work splits over the
+/// workers, changes; whether a configuration collides does not (fewer bodies: start and goal stay
+/// free). Anything that treats the head, the tail or a remainder of that list differently shows up
+/// as a colliding node.
+pub fn positional_variant(case: &Case, r: &mut Rng) -> Case {
+    let mut c = case.clone();
+    let n = c.cell.env.len();
+    if r.chance(0.7) {
+        c.cell.tool = None;
+    }
+    if r.chance(0.7) {
+        c.cell.base = None;
+    }
+    let reverse = n >= 2 && r.chance(0.5);
+    if reverse {
+        c.cell.env.reverse();
+    }
+    let (has_tool, has_base) = (c.cell.tool.is_some(), c.cell.base.is_some());
+    let remap = |k: u16| -> Option<u16> {
+        let k = k as usize;
+        if k >= ENV0 {
+            Some(if reverse { (ENV0 + (n - 1 - (k - ENV0))) as u16 } else { k as u16 })
+        } else if (k == J_TOOL && !has_tool) || (k == J_BASE && !has_base) {
+            None
+        } else {
+            Some(k as u16)
+        }
+    };
+    c.cell.safety.special = c.cell.safety.special.iter().filter_map(|&(a, b, d)| Some((remap(a)?, remap(b)?, d))).collect();
+    c.cfg.pool = *r.pick(&[2usize, 3, 3, 5, 6, 7, 7, 9, 11, 13]);
+    c.cancel = Cancel::Never;
+    c
+}
+
 pub fn judge(case: &Case) -> Vec<Fail> {
     let robot = Arc::new(case.cell.build_probed_robot());
     let oc = OracleCell::new(&case.cell);
@@ -792,7 +829,7 @@ pub fn run(tier_name: &str, seed: u64) -> i32 {
             }
             // guided fault placement on nodes that were never collision-checked (none on a planner
             // that checks every node it adds)
-            let mut guided: Vec<(Case, SimOut<Obs>)> = Vec::new();
+            let mut guided: Vec<(Case, SimOut<Obs>, &str)> = Vec::new();
             for (c, out) in all.iter().take(2) {
                 if let Ok(o) = &out.result {
                     let n = unchecked_nodes(o).len();
@@ -804,8 +841,17 @@ pub fn run(tier_name: &str, seed: u64) -> i32 {
                     let grobot = Arc::new(g.cell.build_probed_robot());
                     let gout = execute(&grobot, &g, true);
                     tally.bump("fault_obstacle_placed_on_unchecked_path_node", 1);
-                    guided.push((g, gout));
+                    guided.push((g, gout, "obstacle placed at a path node the planner never checked"));
                 }
+            }
+            // positional variant of every third scenario (bodies listed differently, odd pool sizes)
+            if run % 3 == 2 {
+                let mut r = Rng::derive(seed, shard as u64, run as u64, "c13.positional");
+                let v = positional_variant(&base, &mut r);
+                let vrobot = Arc::new(v.cell.build_probed_robot());
+                let vout = execute(&vrobot, &v, true);
+                tally.bump("positional_variants (environment reversed / tool or base body removed / odd pool size)", 1);
+                guided.push((v, vout, "positional variant: same robot, start and goal; bodies listed differently"));
             }
             // determinism (clause h): the fault-free run again, bit for bit
             if run % 8 == 0 {
@@ -819,7 +865,7 @@ pub fn run(tier_name: &str, seed: u64) -> i32 {
                 tally.bump("determinism_reruns", 1);
             }
             let mut seen = BTreeSet::new();
-            for (g, gout) in &guided {
+            for (g, gout, why) in &guided {
                 record(g, gout, &mut tally, scen_hash ^ 0x6D);
                 let grobot = Arc::new(g.cell.build_probed_robot());
                 let goc = OracleCell::new(&g.cell);
@@ -833,7 +879,7 @@ pub fn run(tier_name: &str, seed: u64) -> i32 {
                             property: "C13".into(),
                             clause: f.clause.clone(),
                             signature: f.signature.clone(),
-                            detail: format!("{} [obstacle placed at a path node the planner never checked]", f.detail),
+                            detail: format!("{} [{}]", f.detail, why),
                             case: json!({"check": "C13", "case": g}),
                             origin: Some((shard, run)),
                         });
